@@ -973,7 +973,7 @@ class LibsModel:
         ty = it.ty
         if ty == 'ndarray':
             ax = it.axes[1:] if it.axes else None
-            out = it.only('geo', 'idx', 'mono', 'prov', 'store', 'dtype', 'taint', 'origin', 'counts_of', 'unique_of', 'positional_slice', 'pair_width', 'minwidth', 'symimg', 'unwrapped_image').w(ty='ndarray', axes=ax, view_of=it.store, deps=it.deps)
+            out = it.only('geo', 'idx', 'mono', 'prov', 'store', 'dtype', 'taint', 'origin', 'counts_of', 'unique_of', 'bincount_of', 'positional_slice', 'pair_width', 'minwidth', 'symimg', 'unwrapped_image').w(ty='ndarray', axes=ax, view_of=it.store, deps=it.deps)
             if it.colvals is not None and it.axes is not None and len(it.axes) == 2:
                 out = out.w(ty='tuple', elts=list(it.colvals), rowof=True)
             if ax == ():
